@@ -451,7 +451,7 @@ func genUnknownRefText() *rapid.Generator[string] {
 			rapid.StringMatching("[a-z0-9]{1,8}"),
 		).Filter(func(n string) bool { _, s := supported[n]; return !s }).Draw(t, "name")
 		n := rapid.OneOf(rapid.IntRange(1, 12), rapid.SampledFrom([]int{1, 2, 3, 127, 128, 129, 254, 255, 256, 257, 258})).Draw(t, "hexlen")
-		hx := genDigestHex((n + 1) / 2).Draw(t, "hex")[:n]
+		hx := genDigestHex((n+1)/2).Draw(t, "hex")[:n]
 		return name + "-" + hx
 	})
 }
